@@ -9,3 +9,4 @@ ASSUMPTIONS = ["A-LIB: TensorFlow's random number generator delivers independent
 
 from vt.contracts import iface_gen  # noqa: F401,E402
 from vt.contracts import loops  # noqa: F401,E402
+from vt.contracts import phsp_sym  # noqa: F401,E402
